@@ -45,6 +45,9 @@ func protoExplore(job *Job, r *Report, prop string) {
 	var names []string
 	for _, l := range letters {
 		al[l.Name] = l
+		if l.CoreOnly {
+			continue
+		}
 		names = append(names, l.Name)
 	}
 	maxLen := 2
@@ -148,7 +151,7 @@ func protoExplore(job *Job, r *Report, prop string) {
 	rec(nil)
 	// longer scripts over the stateful core of the alphabet (one key: numeric / plain / C-allocated values, delete, incr,
 	// add, cas, reads), delivered whole: sequences such as incr - delete - incr need three or four letters
-	core := []string{"get-a", "set-a", "set-a-num", "set-a-c65", "set-a-rev1-c65", "delete-a", "incr-a-1", "add-a", "cas-a", "get-meta-a"}
+	core := []string{"get-a", "set-a", "set-a-num", "set-a-c65", "set-a-rev1-c65", "set-a-text11k", "delete-a", "incr-a-1", "add-a", "cas-a", "get-meta-a"}
 	core4 := []string{"get-a", "set-a-num", "set-a-c65", "delete-a", "incr-a-1"}
 	r.Bounds["core_letters_scripts_of_3"] = core
 	r.Bounds["core_letters_scripts_of_4"] = core4
@@ -187,7 +190,7 @@ func protoExplore(job *Job, r *Report, prop string) {
 
 func C11(job *Job, r *Report) {
 	r.Level = "model_checking"
-	r.Rule = "every script of up to N letters (quick 2, thorough 3) over a 60-letter alphabet of client byte strings (well-formed get/gets/set/add/replace/cas/delete/incr with and without noreply, binary and empty values, multi-get incl. duplicate keys, explicit revision; special keys @ / @@ / ? / ?? of every shape; stats, version, verbosity, flush_all; quit, unsupported verbs; malformed: wrong arity, non-numeric / negative / overflowing numbers, body longer / shorter than declared, missing CR, bare LF, empty line, missing terminator, over-long and control-character keys), followed by a resynchronising filler and a probe get; each script (of up to 2 letters) is delivered whole, in EVERY 2-segment split and cut at EVERY byte (plus, whole only, every script of 3 letters over a 10-letter stateful core and of 4 letters over a 5-letter core: reads, plain / numeric / C-allocated sets, delete, incr, add, cas on one key), through ServerConn.ServeOnce on an in-memory connection against the real StorageClient on memfs. Oracle: (1) the output parses with the harness's reply grammar; (2) commands in the modeled domain get exactly the reference map's reply, one per command in order, none for noreply; (3) other well-formed commands get exactly one valid reply; unsupported ones an error reply or an orderly close; inside/after a malformed region replies stay grammatical and, unless the connection was closed, the probe is answered last and correctly; (4) a cut stream yields replies for the complete commands only; a second connection still answers the probe and (if all letters were modeled) holds the model's content; panics and blocked token waits are violations; states = distinct server outputs"
+	r.Rule = "every script of up to N letters (quick 2, thorough 3) over a 60-letter alphabet of client byte strings (well-formed get/gets/set/add/replace/cas/delete/incr with and without noreply, binary and empty values, multi-get incl. duplicate keys, explicit revision; special keys @ / @@ / ? / ?? of every shape; stats, version, verbosity, flush_all; quit, unsupported verbs; malformed: wrong arity, non-numeric / negative / overflowing numbers, body longer / shorter than declared, missing CR, bare LF, empty line, missing terminator, over-long and control-character keys), followed by a resynchronising filler and a probe get; each script (of up to 2 letters) is delivered whole, in EVERY 2-segment split and cut at EVERY byte (plus, whole only, every script of 3 letters over an 11-letter stateful core (incl. an 11000-byte compressible value, above the two-stage compression threshold) and of 4 letters over a 5-letter core: reads, plain / numeric / C-allocated sets, delete, incr, add, cas on one key), through ServerConn.ServeOnce on an in-memory connection against the real StorageClient on memfs. Oracle: (1) the output parses with the harness's reply grammar; (2) commands in the modeled domain get exactly the reference map's reply, one per command in order, none for noreply; (3) other well-formed commands get exactly one valid reply; unsupported ones an error reply or an orderly close; inside/after a malformed region replies stay grammatical and, unless the connection was closed, the probe is answered last and correctly; (4) a cut stream yields replies for the complete commands only; a second connection still answers the probe and (if all letters were modeled) holds the model's content; panics and blocked token waits are violations; states = distinct server outputs"
 	r.Assumptions = []string{"timeouts do not fire (virtual clock)", "error text and error class of a malformed command are not pinned", "one connection served at a time (the accept loop is not executed)"}
 	protoExplore(job, r, "C11")
 }
